@@ -306,6 +306,20 @@ class FnTir:
                     for i, s in enumerate(pat["subs"]):
                         if s.get("k") == "bind":
                             self.env[s["name"]] = self.component(init, i)
+            if e.get("els") is not None and init is not None:
+                iv0 = H.peel_ref(init)
+                if iv0.get("k") == "local" and iv0.get("name") in self.env_opt and pat.get("k") == "variant" and \
+                        (pat.get("path") or {}).get("def") == "core::option::Option::Some":
+                    # `let Some(x) = opt else {..}` where `opt` is known (per arm of an enclosing expansion) to be None / Some(y)
+                    kind, payload = self.env_opt[iv0["name"]]
+                    if kind == "none":
+                        items.append(self.W(e["els"]))
+                        return ("seq", items)
+                    subs = pat.get("subs") or []
+                    if len(subs) == 1 and subs[0].get("k") == "bind" and payload is not None:
+                        self.env[subs[0]["name"]] = self.S(payload)
+                        self.env_expr[subs[0]["name"]] = payload
+                    return ("seq", items)
             if e.get("els") is not None:
                 items.append(("alt", [({"text": "let-else matched", "e": e, "taken": True}, ("seq", [])),
                                       ({"text": "let-else failed", "e": e, "taken": False}, self.W(e["els"]))]))
